@@ -306,6 +306,21 @@ func (t *Table) LeftOptionalJoin(t2 *Table) error {
 		return nil
 	}
 	if disjointBindings(t.mbs, t2.mbs) {
+		if len(t2.Data) == 0 {
+			// Nothing matched on the optional side: every row is kept and the
+			// bindings of the optional side are left unset.
+			t.mu.Lock()
+			defer t.mu.Unlock()
+			bs := make([]string, 0, len(t2.mbs))
+			for b := range t2.mbs {
+				bs = append(bs, b)
+			}
+			t.unsafeAddBindings(bs)
+			for i, r := range t.Data {
+				t.Data[i] = extendRow(r, t2.mbs)
+			}
+			return nil
+		}
 		// The tables has nothing in commnon. Hence, we are going to treat it
 		// as a regular cross product.
 		return t.DotProduct(t2)
